@@ -72,7 +72,7 @@ func runC16(e *Engine, g G, o RunOpt) RunInfo {
 	for i := 0; i < n; i++ {
 		c := c16Conn{StreamID: genText(g, "sid", true)}
 		c.Reply = c16Replies[g.Weighted("reply", 8, 2, 2, 2, 2, 2, 2, 2, 2, 2, 2, 2, 2, 1, 1, 1)]
-		c.Header = []int{HdrOK, HdrOKDecl}[g.N("hdr", 2)]
+		c.Header = []int{HdrOK, HdrOKDecl, HdrOKForeignID}[g.N("hdr", 3)]
 		c.DelayMs = []int{0, 0, 20, 3000}[g.N("delay", 4)]
 		c.Stanzas = g.Range("stanzas", 0, 4)
 		c.EndBy = []string{"close", "cut"}[g.N("endby", 2)]
